@@ -65,7 +65,7 @@ impl Prop for C06 {
     }
     fn components(&self) -> Value {
         json!({"real": ["sentinel-core: EntryBuilder, slot chain, hotspot manager/slot, RejectChecker, LRU counter caches"],
-               "stub": ["clock (virtual, hook H1)", "getrandom (seeded)", "logger (none)"]})
+               "stub": ["clock (virtual, hook H1)", "getrandom (seeded)", "logger (a sink that formats every record of the library and discards it)"]})
     }
 
     fn generate(&self, rng: &mut Rng, slot_ns: u64, _avoid: bool) -> Value {
